@@ -193,19 +193,41 @@ struct Variant
 struct VarTable
 {
     std::vector<Variant>  v;
-    std::vector<uint64_t> pq, pt; // prefix sums
+    std::vector<uint64_t> pq, pt; // prefix sums (concatenated layout)
+    // interleaved layout (random sub-checks): index i -> variant i % n, local i / n, so that a
+    // shortened index range (sanitizer runs) still visits every variant; requires equal counts
+    bool                interleave = false;
+    std::vector<size_t> aq, at;   // variants active in the tier
     void add (std::string name, uint64_t nq, uint64_t nt, std::function<void (Ctx&, uint64_t, uint64_t)> fn)
     {
         v.push_back (Variant{std::move (name), nq, nt, std::move (fn)});
     }
-    void seal ()
+    void seal (bool interleaved = false)
     {
         pq.assign (1, 0); pt.assign (1, 0);
         for (auto& x: v) { pq.push_back (pq.back () + x.nq); pt.push_back (pt.back () + x.nt); }
+        interleave = interleaved;
+        for (size_t k = 0; k < v.size (); ++k)
+        {
+            if (v[k].nq) aq.push_back (k);
+            if (v[k].nt) at.push_back (k);
+        }
+        if (interleave)
+        {
+            for (size_t k: aq) if (v[k].nq != v[aq[0]].nq) interleave = false;
+            for (size_t k: at) if (v[k].nt != v[at[0]].nt) interleave = false;
+        }
     }
     uint64_t total (bool thorough) const { return thorough ? pt.back () : pq.back (); }
     void run (Ctx& c, uint64_t b, uint64_t e) const
     {
+        if (interleave)
+        {
+            const std::vector<size_t>& a = c.thorough ? at : aq;
+            if (a.empty ()) return;
+            for (uint64_t i = b; i < e; ++i) v[a[i % a.size ()]].fn (c, i, i / a.size ());
+            return;
+        }
         const std::vector<uint64_t>& p = c.thorough ? pt : pq;
         size_t k = (size_t) (std::upper_bound (p.begin (), p.end (), b) - p.begin ()) - 1;
         for (uint64_t i = b; i < e; ++i)
